@@ -1453,3 +1453,52 @@ def factory_forwarding(view, ctors):
                 if any(norm(c2["n"]) == norm(pn) for c2 in ctor.params):
                     problems.append(("slot", "argument %d `%s` is received by constructor parameter `%s`, while the constructor has a parameter `%s` at another position" % (k + 1, pn, cn, pn)))
     return problems, "%s -> %s(%s)" % (render(site)[:60], ctor.name, ", ".join(p["n"] for p in ctor.params))
+
+
+# -------------------------------------------------------------------------------------------------
+# fall-through between non-empty cases of a switch
+# -------------------------------------------------------------------------------------------------
+
+def switch_fallthroughs(body):
+    """[(switch node, label node of the case that is left, label node of the case that is entered)] for every place where
+    control falls from a NON-EMPTY case group into the next label (`case a: case b:` — an empty group — is a shared label,
+    not a fall-through).  Works on the statement tree only (also for uninstantiated templates)."""
+    out = []
+
+    def ends(st):
+        """control cannot leave statement st by falling off its end"""
+        if st is None:
+            return False
+        k = st.get("k")
+        if k in ("Break", "Return", "Continue", "Throw"):
+            return True
+        if k == "Assign" and st.get("from_return"):
+            return True         # `return e;` of an inlined helper (Inliner, mode 'multi'): control leaves the switch here
+        if k in ("Call", "MCall") and (st.get("noreturn") or (st.get("callee") or "").endswith("FEAT::abortion")):
+            return True
+        if k == "Block":
+            return bool(st.get("s")) and ends(st["s"][-1])
+        if k == "If":
+            return st.get("else") is not None and ends(st.get("then")) and ends(st["else"])
+        if k in ("Case", "Default"):
+            return isinstance(st.get("s"), dict) and ends(st["s"])
+        return False
+    for sw in walk(body):
+        if sw.get("k") != "Switch":
+            continue
+        b = sw.get("body") or {}
+        seq = b.get("s", []) if b.get("k") == "Block" else []
+        cur_label, group = None, []
+        for st in seq:
+            if st.get("k") in ("Case", "Default"):
+                if cur_label is not None:
+                    stmts = group + ([cur_label["s"]] if isinstance(cur_label.get("s"), dict) and cur_label["s"].get("k") not in ("Case", "Default") else [])
+                    nonempty = bool(group) or (isinstance(cur_label.get("s"), dict) and cur_label["s"].get("k") not in ("Case", "Default"))
+                    last = group[-1] if group else cur_label
+                    if nonempty and not ends(last):
+                        out.append((sw, cur_label, st))
+                # nested labels `case a: case b: stmt` are one label node with a label as sub-statement
+                cur_label, group = st, []
+            else:
+                group.append(st)
+    return out
